@@ -654,7 +654,7 @@ Definition sort_locs (ls : list loc) : list loc :=
 Inductive qual :=
 | QText (k : str) (chunks : list str)      (* /k="c1 c2 ..."  one line per chunk *)
 | QNum (k : str) (digits : str)            (* /k=123 *)
-| QRaw (k : str) (v : str)                 (* /k=word   (unquoted, not a number) *)
+| QRaw (k : str) (v : str)                 (* /k=word   (unquoted; an int when int() accepts it: -3, +5, 1_0, 007) *)
 | QFlag (k : str).                         (* /k *)
 Record afeat := mkafeat { akey : str; aloc : lexp; awrap : list nat; aquals : list qual }.
 Record hfield := mkhfield { hk : str; hlines : list str; hsubs : list (str * list str) }.
@@ -734,13 +734,15 @@ Definition view_id (r : arec) : option str := fold_left acc_step (ahdr r) None.
 Definition is_flag (q : qual) : bool := match q with QFlag _ => true | _ => false end.
 Definition flag_names (qs : list qual) : list str :=
   flat_map (fun q => match q with QFlag k => [k] | _ => [] end) qs.
+(* genbank.py:199-203: an unquoted value becomes an int when int() accepts it *)
+Definition raw_val (v : str) : qv := match py_int v with Some n => QI n | None => QS v end.
 (* qualifiers in file order; the flags are collected in one list that takes the place of the first flag *)
 Fixpoint view_quals (qs : list qual) (flags : list str) (seen_flag : bool) : list (str * qv) :=
   match qs with
   | [] => []
   | QText k cs :: r => (k, QS (concat cs)) :: view_quals r flags seen_flag
   | QNum k d :: r => (k, QI (dval d)) :: view_quals r flags seen_flag
-  | QRaw k v :: r => (k, QS v) :: view_quals r flags seen_flag
+  | QRaw k v :: r => (k, raw_val v) :: view_quals r flags seen_flag
   | QFlag _ :: r => if seen_flag then view_quals r flags true else (k_misc, QL flags) :: view_quals r flags true
   end.
 (* the qualifier dict as the reader builds it (genbank.py:197-215): assignment ftmeta[k] = v keeps the position of the first
@@ -749,7 +751,7 @@ Definition apply_qual (m : list (str * qv)) (q : qual) : list (str * qv) :=
   match q with
   | QText k cs => aset k (QS (concat cs)) m
   | QNum k dg => aset k (QI (dval dg)) m
-  | QRaw k v => aset k (QS v) m
+  | QRaw k v => aset k (raw_val v) m
   | QFlag k => match aget k_misc m with
                | None => aset k_misc (QL [k]) m
                | Some (QL xs) => aset k_misc (QL (xs ++ [k])) m
@@ -762,7 +764,7 @@ Definition qassign (q : qual) : option (str * qv) :=
   match q with
   | QText k cs => Some (k, QS (concat cs))
   | QNum k dg => Some (k, QI (dval dg))
-  | QRaw k v => Some (k, QS v)
+  | QRaw k v => Some (k, raw_val v)
   | QFlag _ => None
   end.
 Fixpoint last_val (k : str) (qs : list qual) (acc : option qv) : option qv :=
@@ -835,18 +837,22 @@ Definition qkey (q : qual) : str := match q with QText k _ | QNum k _ | QRaw k _
 Definition wf_qkey (k : str) : bool :=
   nonempty k && forallb is_word k && negb (str_eqb k k_misc) && negb (mem k reserved).
 Definition no_ws (s : str) : bool := forallb (fun c => negb (is_ws c)) s.
+(* a quoted value keeps double quotes inside (INSDC writes an embedded quote doubled; the reader does not unescape it) but
+   val.strip(dq) removes every quote at the two ends of each line, so a piece must not begin or end with one *)
+Definition noq_ends (c : str) : bool := negb (byte_eqb dq (hd sp c)) && negb (byte_eqb dq (last c sp)).
 Definition wf_qual (q : qual) : bool :=
   match q with
   | QText k cs =>
-      wf_qkey k && forallb (fun c => forallb printable c && negb (has dq c)) cs
+      wf_qkey k && forallb (fun c => forallb printable c && noq_ends c) cs
       && match cs with
          | [] | [_] => true
-         | c0 :: r => forallb (fun c => nonempty c && no_ws c) cs
+         (* a value over several lines: every piece is non-empty and has no blank at its ends (the reader strips each line; blanks
+            INSIDE a piece are kept), the pieces are joined without a separator; a continuation must not look like a qualifier *)
+         | c0 :: r => forallb (fun c => nonempty c && negb (is_ws (hd sp c)) && negb (is_ws (last c sp))) cs
                       && forallb (fun c => negb (startswith [("/"%byte)] c)) r
          end
   | QNum k d => wf_qkey k && all_digits d
   | QRaw k v => wf_qkey k && nonempty v && forallb printable v && no_ws v && negb (has dq v)
-                && match py_int v with None => true | Some _ => false end
   | QFlag k => nonempty k && forallb is_word k
   end.
 (* everything but the one-strand condition: such a feature is read up to the point where its LocationTuple is built *)
